@@ -396,8 +396,8 @@ theorem tc_layers_single {fs : FS} {d cwd : Comps} {l e₀ : String} {v : Val}
     (h1 : (l.splitOn ".").length = 1) (ha : parentDirective v = .ok .absent) (st : PState) :
     mergeFileLayers fs ⟨[], cwd⟩ st (d ++ [l ++ "." ++ e₀]) =
       mergeDocument st (oneDoc (pathStr (d ++ [l ++ "." ++ e₀])) [] v) := by
-  have hp : fileParents fs (d ++ [l ++ "." ++ e₀]) [v] = .ok [] := by
-    rw [fileParents_layer hd hl h (by simpa using ha), if_pos h1]
+  have hp : fileParents fs ⟨[], cwd⟩ (d ++ [l ++ "." ++ e₀]) [v] = .ok [] := by
+    rw [fileParents_layer ⟨[], cwd⟩ hd hl h (by simpa using ha), if_pos h1]
   rw [mergeFileLayers_eq, show loadFuel = 63 + 1 from rfl,
     lfp_gen1 (fun fid => loadFile_layerFile hd hl h cwd fid) hp 63 none [] [] rfl,
     stripParent_of_absent v ha]
@@ -425,8 +425,8 @@ theorem tc_layers_multi {fs : FS} {d cwd : Comps} {l e₀ : String} {raw : List 
     (st : PState) :
     mergeFileLayers fs ⟨[], cwd⟩ st (d ++ [l ++ "." ++ e₀]) =
       runMerges st (mineOf (pathStr (d ++ [l ++ "." ++ e₀])) (d ++ [l ++ "." ++ e₀]) raw [] []).docs := by
-  have hp : fileParents fs (d ++ [l ++ "." ++ e₀]) raw = .ok [] := by
-    rw [fileParents_layer hd hl h ha, if_pos h1]
+  have hp : fileParents fs ⟨[], cwd⟩ (d ++ [l ++ "." ++ e₀]) raw = .ok [] := by
+    rw [fileParents_layer ⟨[], cwd⟩ hd hl h ha, if_pos h1]
   rw [mergeFileLayers_eq, show loadFuel = 63 + 1 from rfl,
     lfp_leaf (childId := none) (c := []) (chain := []) rfl
       (loadFile_layerFile hd hl h cwd _) hp]
@@ -798,7 +798,7 @@ theorem tc_load_stripped (fs : FS) (cfg : RootCfg) : ∀ (fuel : Nat) (path : Co
       | ok raw =>
         rw [hl] at h
         simp only at h
-        cases hp : fileParents fs path raw with
+        cases hp : fileParents fs cfg path raw with
         | error e => rw [hp] at h; cases h
         | ok parents =>
           rw [hp] at h
